@@ -30,7 +30,7 @@ CLAIMED = {
     "C05": ("model_checking", "Key clause: for every proto identifier up to the bound, the emitted key is compared with protoc's ToJsonName and the reference's key is mapped back. Value clause: to_dict is "
             "compared with a spec model of the canonical proto3 JSON mapping on every path, and the canonical object is fed back; json_format Parse/MessageToJson run at every witness in both directions.", "4 C05"),
     "C06": ("model_checking", "Every field is put in {never set, default, non-default} through {constructor, attribute, parse, from_dict}; the emitted field numbers and the presence report after decoding are "
-            "compared on every path with the proto3 presence rules (spec encoder); HasField/WhichOneof of the reference at every witness.", "4 C06"),
+            "compared on every path with the proto3 presence rules (spec encoder), also after the message has been carried through copy / deepcopy before its first read; HasField/WhichOneof of the reference at every witness.", "4 C06"),
     "C07": ("model_checking", "Inductive step from an arbitrary state satisfying the representation invariant (pre-state written directly into the slots) for each of 8 operations, plus bounded histories "
             "from a fresh message with environment-chosen operations; the observable clause (which_one_of, AttributeError, wire, JSON) is asserted after every step; the invariant is a proof device "
             "(a step that does not re-establish it is followed by one more operation and observed again, never reported by itself). Groups with field-less and Timestamp/Duration members included.", "4 C07"),
@@ -48,7 +48,7 @@ CLAIMED = {
     "C19": ("model_checking", "Every identifier [A-Za-z_][A-Za-z0-9_]* up to the bound is one symbolic string; the real casing functions run on it through a symbolic regex matcher driven by CPython's own "
             "regex parse tree; identifier-ness, keyword-freeness, idempotence and key-maps-back are decided per path.", "4 C19"),
     "C20": ("model_checking", "Enum definitions and field values are environment choices over boundary numbers (enum members are C ints, not solver variables): lookup identity, aliases, copy identity, "
-            "immutability, open values in five field positions through both codecs. The all-int32 claim for the enum wire codec is carried by C16.", "4 C20"),
+            "immutability, open values in five field positions through both codecs, pickling of every member (incl. members named like attributes of int) at every witness. The all-int32 claim for the enum wire codec is carried by C16.", "4 C20"),
     "C16": ("model_checking", "All integers of [-2**63, 2**64) and [-2**80, -2**63) and every decoder input of length <= 11 are decided by z3 on 12-80 paths per harness; "
             "per-kind single-field encodings are proved equal to an independent spec encoder that is checked against google.protobuf at each witness.", "4 C16"),
 }
